@@ -5,6 +5,7 @@
 // BTree::create, IndexCatalog::open_or_create, i2e_location / read_i2e_record / write_i2e_record (idmap.rs).
 // Bodies extracted from nervusdb-storage/src/{pager,csr,idmap}.rs, index/{btree,catalog}.rs.
 //@unit c18_pager
+//@rlimit 50
 //@property C18
 use vstd::prelude::*;
 use std::fs::File;
@@ -417,6 +418,44 @@ impl IdMap {
 //@prewrite "labels.sort_unstable();\n        labels.dedup();" => "v_sort_dedup(&mut labels);"
 //@prewrite "labels.first().copied().unwrap_or(0)" => "v_first_or_zero(&labels)"
 //@prewrite "self.e2i.insert(external_id, internal_id);" => "v_e2i_insert(&mut self.e2i, external_id, internal_id);"
+//@end
+}
+
+// ---- blob store
+//@item nervusdb-storage/src/blob_store.rs struct BlobStore
+//@item nervusdb-storage/src/blob_store.rs const HEADER_SIZE
+//@item nervusdb-storage/src/blob_store.rs const MAX_DATA_PER_PAGE
+//@trusted v_chunks_rev: `data.chunks(n).collect::<Vec<_>>()` followed by `.into_iter().rev()` visits the non-empty pieces of `data` of at most n bytes each, last piece first (std); the loop of write_direct iterates this vector (iterator adapters chunks/rev are not ingestible)
+#[verifier::external_body]
+pub fn v_chunks_rev<'a>(data: &'a [u8], n: usize) -> (r: Vec<&'a [u8]>)
+    requires n > 0
+    ensures forall|i: int| 0 <= i < r@.len() ==> 1 <= (#[trigger] r@[i])@.len() <= n,
+        (r@.len() == 0) == (data@.len() == 0),
+{ let mut v: Vec<&[u8]> = data.chunks(n).collect(); v.reverse(); v }
+//@trusted v_page_write: `page[a..b].copy_from_slice(src)` on a local page buffer overwrites a..b with src (std panics unless a <= b <= 8192 and src.len() == b - a: precondition); no pager state involved
+#[verifier::external_body]
+pub fn v_page_write(page: &mut [u8; 8192], a: usize, b: usize, src: &[u8])
+    requires a <= b <= 8192, src@.len() == b - a
+    ensures final(page)@ == old(page)@.take(a as int) + src@ + old(page)@.skip(b as int)
+{ page[a..b].copy_from_slice(src) }
+
+impl BlobStore {
+// C18.client.frame.write_direct — the property for the blob store (property values, statistics, HNSW
+// payloads): every page a blob write touches is one it obtained from allocate_page in the same call.
+//@extract nervusdb-storage/src/blob_store.rs BlobStore::write_direct ret r
+//@| requires old(pager).wf(), data@.len() <= 0x7fff_ffff_ffff_ffff,
+//@| ensures frame_ok(*old(pager), *final(pager), ISet::<int>::empty()),
+//@|     r is Ok ==> 2 <= r->Ok_0 < 65536 && !old(pager).alloc(r->Ok_0 as int) && final(pager).alloc(r->Ok_0 as int),
+//@prewrite "if data.is_empty() {" => "if data.len() == 0 {"
+//@preregex "(?s)let chunks: Vec<&\[u8\]> = data\.chunks\(MAX_DATA_PER_PAGE\)\.collect\(\);" => "let chunks: Vec<&[u8]> = v_chunks_rev(data, MAX_DATA_PER_PAGE);"
+//@prewrite "in it1: chunks.into_iter().rev() " => "in it1: chunks.iter() "
+//@preregex "page\[(\w+)\.\.([^\]]+)\]\.copy_from_slice\(([^;]*)\);" => "v_page_write(&mut page, \1, \2, \3);"
+//@lebytes last_pid:u64 chunk_len:u16
+//@loop 1 iter it1
+//@| invariant old(pager).wf(), frame_ok(*old(pager), *pager, ISet::<int>::empty()),
+//@|     forall|i: int| 0 <= i < chunks@.len() ==> 1 <= (#[trigger] chunks@[i])@.len() <= 8182,
+//@|     chunks@.len() > 0, it1.index@ == 0 ==> last_pid == 0,
+//@|     it1.index@ > 0 ==> 2 <= last_pid < 65536 && !old(pager).alloc(last_pid as int) && pager.alloc(last_pid as int),
 //@end
 }
 
